@@ -37,6 +37,10 @@ type Rules struct {
 	ApplyDelay  uint64
 	RefundDelay uint64
 	FeeAccount  string
+	// Contract: accounts that carry code.  Learned rule: a record controlled by such an
+	// account is not deleted when its whole stake is refunded; it stays as an aborted
+	// record with stake 0 (and keeps occupying the account).
+	Contract map[string]bool
 }
 
 type Miner struct {
@@ -228,13 +232,19 @@ func (m *Model) exec(tx Tx) (bool, string) {
 		left := r.Stake()
 		why := "ok"
 		if left < m.R.MinStake[r.Type] {
-			if left == 0 {
+			if left == 0 && !m.R.Contract[r.Account] {
 				delete(m.Miners, tx.ID)
 				why = "ok-removed"
+			} else if left == 0 {
+				r.Status = StatusAbort
+				why = "ok-emptied"
 			} else {
 				r.Status = StatusAbort
 				why = "ok-aborted"
 			}
+		}
+		if amount == 0 {
+			return true, why + "-zero"
 		}
 		due := m.Height + m.R.RefundDelay
 		if m.Pending[due] == nil {
